@@ -81,6 +81,7 @@ theorem scatterSum_map_inj {κ : Type} [BEq κ] [LawfulBEq κ] (add : α → α 
         simp only [beq_iff_eq, h, hg, if_false]
         exact ih vs hts _
 
+omit [LawfulBEq ι] in
 /-- the meaning only depends on which listed positions equal `idx`: two index lists with the same
 "equals `idx`" pattern give the same sum (no algebraic law needed: the summation order is the same) -/
 theorem scatterSum_congr_keys {κ : Type} [BEq κ] [LawfulBEq κ] (add : α → α → α) (zero : α)
